@@ -45,6 +45,9 @@ def strip_generics(p):
     return "".join(out)
 
 
+SCALAR_RET = ("u8", "u16", "u32", "u64", "usize", "i8", "i16", "i32", "i64", "isize", "bool")
+
+
 class Leaf:
     def __init__(self, status, value, env):
         self.status, self.value, self.env = status, value, env
@@ -972,6 +975,12 @@ class Interp:
             try:
                 return self.call_value(name, args)
             except Unanalysable:
+                pass
+        if name in self.hir and self.hir[name].get("ret") in SCALAR_RET and self.depth < 12:
+            # a local helper returning a scalar (e.g. a per-sample field computation moved into its own function): look through it
+            try:
+                return self.call_value(name, args)
+            except (Unanalysable, RecursionError, KeyError, IndexError, TypeError):
                 pass
         return ("call", sname, tuple(self.opaque_arg(a) for a in args))
 
